@@ -27,6 +27,7 @@ RULE = ('EVERY (length n, chunk size, overlap < chunk) with n <= N, chunk <= 16 
         'or n < chunk or odd overlap; excerpt triples with n < k*size or (n-size) mod (k-1) != 0; file '
         'lists containing a file shorter than the chunk; compressed layouts with >= 2 batches.')
 RULE += ' Round 6: part files ending in an incomplete row; a .cbin recompressed under the same name and reopened by its path; for chunk lengths of exactly x.5 samples either rounding is accepted.'
+RULE += " Round 7: a multi-file reader wrapped as an array by a second reader with a shorter chunk length; a new array reader after the caller extended an earlier reader's bounds list."
 EXHAUSTIVE = {'quick': True, 'thorough': True}
 EXHAUSTIVE_SCOPE = {'quick': 'n <= 25 (see rule)', 'thorough': 'n <= 40 (see rule)'}
 FLOORS = {'quick': {'evaluations': 20000, 'distinct_nontrivial': 2000,
